@@ -17,6 +17,8 @@ PROFILES = [
     ("two continuous states", {"p_w": 1.0, "p_z": 1.0, "p_h": 1.0, "p_r": 0.0, "sizes": SIZES}),
     ("three discrete states", {"p_r": 1.0, "p_h": 1.0, "p_e": 1.0, "p_w": 0.0, "p_z": 0.0, "sizes": SIZES, "max_cells": 2500}),
     ("random", {}),
+    ("many variables (17-20), most with a single label", {"pad_states": 14, "p_w": 1.0, "p_h": 1.0, "p_r": 0.5, "p_z": 0.0, "p_e": 0.0, "p_d": 0.0,
+                                                          "T": [1, 2], "max_cells": 2500}),
 ]
 
 
@@ -24,8 +26,16 @@ def permutations_of(rng, m, k):
     """k distinct declaration orders of states, choices and functions of model m (incl. the original)."""
     states = [v for v in m["vars"] if v["role"] == "state"]
     choices = [v for v in m["vars"] if v["role"] == "choice"]
-    allp = list(itertools.product(itertools.permutations(range(len(states))), itertools.permutations(range(len(choices)))))
-    rng.shuffle(allp)
+    if len(states) > 6 or len(choices) > 6:      # too many orders to enumerate: k random ones
+        def rp(n):
+            p = list(range(n))
+            rng.shuffle(p)
+            return tuple(p)
+        allp = [(tuple(range(len(states))), tuple(range(len(choices))))] + [(rp(len(states)), rp(len(choices))) for _ in range(max(k, 1) * 2)]
+        allp = list(dict.fromkeys(allp))
+    else:
+        allp = list(itertools.product(itertools.permutations(range(len(states))), itertools.permutations(range(len(choices)))))
+        rng.shuffle(allp)
     out = []
     for ps, pc in allp[:k]:
         mm = copy.deepcopy(m)
